@@ -10,7 +10,7 @@ def caps(pre, pmode, maxgrow):
     last = pre + maxgrow - 1
     ecap = sum(seg_size(k) for k in range(1, seg_of(last) + 1) if seg_base(k) >= pre)
     if pre == 0: ecap += seg_size(seg_of(last) + 1)      # first-block candidate
-    return {'PRECAP': max(precap, 1), 'ECAP': max(ecap, 1)}
+    return {'PRECAP': max(precap, 1), 'ECAP': max(ecap, 1), 'PAD': seg_base(seg_of(last))}
 def sc2(pre, pmode, maxgrow, **kw):
     d = {'PRE': pre, 'PMODE': pmode}; d.update(caps(pre, pmode, maxgrow)); d.update(kw); return d
 def thr2(a, b):
@@ -64,13 +64,37 @@ def seqops(name, ops, maxd, pres, **kw):
     d.update(kw.pop('defines_extra', {}))
     h.update(kw); return h
 HARNESSES += [
-  grow('single_gb', ('gb',), True, 0, [sc2(p, m, 5, MIND=1, MAXD=5, TABW=8, **({'PROBE': 0} if p else {})) for p, m in ((6, 0), (7, 1))], K=6),
+  grow('single_gb', ('gb',), True, 0, [sc2(p, m, 3, MIND=1, TABW=8, PROBE=0) for p, m in ((6, 0), (7, 1))], K=3, tiers=('thorough',), timeout=3600),
+  grow('single_pb', ('pb',), True, 0, [sc2(p, m, 1, TABW=8, PROBE=0) for p, m in ((7, 0), (7, 1), (8, 0), (8, 1))], K=4),
   #seqops('seq_gb_gb', ('gb', 'gb'), 5, (0, 3, 6), defines_extra={'MIND': 1, 'TABW': 8, 'NODESTROY': 1}, cbmc=['--unwind', '20', '--unwindset', 'vp_memset.0:66,vp_memset.1:66', '--object-bits', '10']),
-  grow('pb2', ('pb', 'pb'), False, 2, [sc2(p, 0, 2, **({'PROBE': 0} if p else {})) for p in (0, 1, 2, 3)]),
+] + [grow('pb2_p%d' % p, ('pb', 'pb'), False, 2, [sc2(p, 0, 2, **({'PROBE': 0} if p else {}))]) for p in (0, 1, 2, 3)] + [
   grow('pb_gb', ('pb', 'gb'), False, 2, [sc2(p, m, 4, **({'PROBE': 0} if p else {})) for p, m in ((0, 0), (1, 0), (3, 0), (3, 1))], tiers=('thorough',), timeout=3600),
-  grow('pb2_table', ('pb', 'pb'), True, 1, [sc2(7, 0, 2, PROBE=0, TABW=8)]),
-  grow('gtal_pb', ('gtal', 'pb'), False, 1, [sc2(1, 0, 4, PROBE=0)]),
+  grow('pb2_table', ('pb', 'pb'), True, 1, [sc2(7, 0, 2, PROBE=0, TABW=8), sc2(8, 0, 2, PROBE=0, TABW=8), sc2(7, 1, 2, PROBE=0, TABW=8)], tiers=('thorough',), timeout=3600),
+  grow('gtal_pb', ('gtal', 'pb'), False, 1, [sc2(1, 0, 4, PROBE=0), sc2(0, 0, 4)], tiers=('thorough',), timeout=3600),
 ]
-OUTSIDE = []
-STUBS = []
-ASSUMPTIONS = []
+MANIFEST = dict(
+  level_text='Bounded symbolic execution of the real concurrent_vector / segment_table code. Full width (every 64-bit index / size, SAT-decided): segment_index_of/base/size tile the index space and round-trip, first-block and embedded-table formulas, number_of_elements_in_segment, iterator ++/-- cache validity, grow_to_at_least claims exactly [old size, n). Thread mode (Lazy-CSeq encoding, solver-owned schedules): 2-3 threads running real push_back / grow_by / grow_to_at_least on one pre-grown vector: returned ranges disjoint and tiling [old size, size), every element constructed exactly once with the requested value inside a live allocated segment, element addresses stable, no call waits forever.',
+  level_note='Bounds per harness in evidence (threads, rounds, deltas 0..3, pre-grown sizes <= 8, indices < 16). Cuts: spin_wait_while_eq -> contract stub (park until changed); units named *_nt stay below the embedded-table limit and cut the table extension to asserting stubs; *_lt units run the real extend_table_if_necessary/allocate_long_table. Allocation = never-failing stub with ghost size bookkeeping (compiled -fno-exceptions: allocator/constructor exceptions are outside). Trusted: clang-14 IR, tools/ir2c.py (selftest differential for the sequential unit), cbmc.',
+)
+OUTSIDE = [
+  'throwing allocator / element constructor (units are compiled with -fno-exceptions): segment_allocation_failure_tag paths, zero-filling, destructibility after a failure',
+  'more than 3 threads, more than one growth call per thread, deltas > 3 (5 in the single-thread harness), pre-grown sizes > 8, indices >= 16 in thread mode',
+  'concurrent growth with sizes >= 2^31 / 2^32 other than through the full-width arithmetic lemmas and the grow_to_at_least claim lemma',
+  'segment 63 (indices >= 2^63): number_of_elements_in_segment overflows there; such a segment can never be allocated',
+  'the literal property text "grow_to_at_least returns only when all elements below n are constructed": the code and its documentation only promise allocated; encoded is constructed-or-under-construction-by-a-running-call (see NOTES.md)',
+  'reserve/shrink_to_fit/resize/clear/copy/move/swap; iterators other than ++/-- cache validity; non-TSO weak memory (sequential consistency assumed)',
+  'interleavings inside spin_wait_while_eq back-off (cut to its contract)',
+]
+STUBS = [
+  'vp_allocator<T>::allocate/deallocate -> vp_alloc_elem/vp_alloc_tab: fresh block of exactly the requested bytes from a static per-thread pool, never fails; deallocate checks pointer/size/double free',
+  'spin_wait_while_eq(location, value): returns the content once it differs from value, parks the calling model thread (VP_BLOCK) while equal',
+  '*_nt units: extend_table_if_necessary / allocate_long_table -> stubs asserting the call is unnecessary (end_index <= 8)',
+  'gtal_claim: internal_grow(start,end) -> recorder returning iterator(start)',
+  'memset (allocate_long_table zero fill via LLVM loop idiom) -> typed model clipped to the backed table entries',
+  'sched_yield/pause: scheduling hints (no-op); r1::throw_exception: unreachable in the checked paths (no body => inconclusive if reached)',
+]
+ASSUMPTIONS = [
+  'allocator never fails and returns distinct live blocks',
+  'grow_to_at_least arithmetic lemma: size, n <= 2^63 (larger vectors are not addressable)',
+  'a long table backed by TABW < 64 entries in scenarios whose indices stay below 2^TABW (any access beyond is reported by cbmc, not ignored)',
+]
